@@ -5,6 +5,8 @@ import (
 	"sort"
 	"strings"
 
+	"golang.org/x/tools/go/ssa"
+
 	"olricvet/internal/core"
 )
 
@@ -111,6 +113,58 @@ func optionGroups(r *core.Run) {
 			"the stage translates ttl options and conditions", "the stage does not translate one of the option groups at all (ttl options or NX/XX are dropped when the request passes through it)")
 		if chains == 0 {
 			r.Unknown("option-groups", name, r.P.Pos(fn.Decl.Pos()), "no option decision recognised in this stage")
+		}
+		// both groups are looked at on every way to a successful result: no return (a "plain
+		// Put" fast path) leaves the stage between the two decisions
+		if fn.SSA != nil && strings.HasSuffix(name, "writePutCommand") {
+			pt := passThrough(r.P)
+			for _, g := range []string{"ttl", "condition"} {
+				var tests []*ssa.BasicBlock
+				for _, b := range fn.SSA.Blocks {
+					if len(b.Instrs) == 0 {
+						continue
+					}
+					ifi, ok := b.Instrs[len(b.Instrs)-1].(*ssa.If)
+					if !ok {
+						continue
+					}
+					cv, _ := core.StripNot(ifi.Cond)
+					if class(core.LastField(cv)) == g {
+						tests = append(tests, b)
+					}
+				}
+				var first *ssa.BasicBlock
+				for _, t := range tests {
+					all := true
+					for _, u := range tests {
+						if !t.Dominates(u) {
+							all = false
+						}
+					}
+					if all {
+						first = t
+					}
+				}
+				okAll := first != nil
+				where := r.P.Pos(fn.Decl.Pos())
+				if first != nil {
+					for _, ret := range core.Returns(fn.SSA) {
+						ttlOnly := false
+						for _, cd := range core.Conditions(ret.Block()) {
+							if cd.Truth && core.LastField(cd.Val) == "OnlyUpdateTTL" {
+								ttlOnly = true // Expire has its own command and carries neither group
+							}
+						}
+						if core.SuccessCapable(ret, pt) && !ttlOnly && !first.Dominates(ret.Block()) {
+							okAll = false
+							where = site(r, instrPos(ret))
+						}
+					}
+				}
+				r.Check(okAll, "option-groups", name+" "+g+" options on every path", where,
+					"every successful result passes the decision over the "+g+" options",
+					"a successful result is produced without looking at the "+g+" options (an early return between the two decisions): a forwarded Put silently loses its "+map[string]string{"ttl": "expiry", "condition": "NX/XX condition — NX overwrites an existing key, XX creates a missing one, an untimed Lock is granted to everybody"}[g])
+			}
 		}
 	}
 }
